@@ -652,18 +652,27 @@ PROPS["C10"] = dict(
 
 PROPS["C28"] = dict(
     title="Addresses and identifiers have lossless, network-bound text forms",
-    functions=["<radix_common::data::scrypto::model::NonFungibleLocalId as FromStr>::from_str (integer form and the "
-               "unknown-type rejection)", "is_canonically_formatted_integer"],
-    bounds="every ASCII string of length 0..=6 (quick) / 0..=8 (thorough) whose first byte is not '<', '[' or '{'",
-    outside="Bech32m addresses (polymod over ~60 characters), string / bytes / RUID local ids, global ids, Display and the "
-            "binary forms: ONLY the clause 'integer ids are accepted only in canonical decimal form' (and that other text "
-            "is rejected without panicking) is decided",
+    functions=["<radix_common::data::scrypto::model::NonFungibleLocalId as FromStr>::from_str (all four forms) with "
+               "is_canonically_formatted_integer, StringNonFungibleLocalId::{new, validate_slice}, "
+               "BytesNonFungibleLocalId::{new, validate}, NonFungibleLocalId::{string, bytes, try_from(Vec<u8>)}",
+               "radix_common::address::AddressBech32Decoder::{validate_and_decode, validate_and_decode_ignore_hrp}, "
+               "AddressBech32Encoder::encode_to_fmt, HrpSet::get_entity_hrp, EntityType::from_repr"],
+    bounds="local ids: every ASCII text of length 0..=6 (quick) / 0..=8 (thorough) for the integer / unknown forms; for the "
+           "'<', '[' and '{' forms lengths 1..=6 (8 thorough; strings 1..=6) plus the boundary lengths 66/67 (string of 64 / 65 "
+           "characters, all but the last two lower-case), 130/132 (64 / 65 bytes) and 68/69/70 (RUID body of 66 / 67 / 68 "
+           "characters, every byte symbolic). Addresses: every outcome of the bech32 layer x every HRP of the network / "
+           "another network / unrelated x Bech32 or Bech32m x payload of 0, 1 or 30 bytes with any first byte",
+    outside="the bech32 crate itself (checksum polymod, character set, 5-bit regrouping) and hex::decode are environment "
+            "stubs (documented contracts); Display / to_string and the binary (SBOR) forms, NonFungibleGlobalId text, "
+            "typed-address wrappers (try_from_bech32 length and entity-type checks per address type), non-ASCII text",
     assumptions=["core's str::parse::<u64> as in the library model (optional '+', digits; validated every run by the "
-                 "self-test strings)", "string model: concrete length, symbolic ASCII bytes"],
+                 "self-test strings)", "string model: concrete length, symbolic ASCII bytes",
+                 "hex::decode succeeds exactly on an even number of hex digits (both cases) and yields half as many bytes; "
+                 "bech32::decode / from_base32 / the Bech32 writer succeed or fail arbitrarily and carry HRP, variant and "
+                 "payload through unchanged"],
     trusted_base=MIR_TB,
     mir=True,
 )
-
 
 PROPS["C08"] = dict(
     title="Protected calls succeed exactly when the access rule is satisfied",
